@@ -522,7 +522,17 @@ impl LazySeq {
         drop(state);
 
         if let Some(gen) = genfn {
-            let obj = gen.call0(py)?;
+            let obj = match gen.call0(py) {
+                Ok(obj) => obj,
+                Err(e) => {
+                    // Restore the generator so that consumers after a failed attempt
+                    // see the error again (or the elements, if a later attempt
+                    // succeeds) rather than a silently truncated sequence.
+                    let mut state = mutex.borrow_mut();
+                    *state = LazySeqState::Initialized(gen);
+                    return Err(e);
+                }
+            };
             let mut state = mutex.borrow_mut();
             *state = LazySeqState::Computed(obj.clone_ref(py));
             Ok(obj.clone_ref(py))
